@@ -367,8 +367,22 @@ def methods(bs, acc, ctx, shard):
             if core.get_options() != (lsb0, False, 'saturate'):
                 problem = problem or f"module options changed to {core.get_options()}"
                 core.set_options(lsb0=lsb0)
+            # a mutable bitstring handed back to the caller is the caller's: changing it in place must not reach the receiver, the arguments,
+            # the immutable witness or the values of string literals
+            extra = ''
+            if got[0] == 'ok' and isinstance(got[1], bs.BitArray) and got[1] is not ns['s'] and problem is None:
+                before = (ns['s'].bin, getattr(ns['s'], 'pos', None))
+                try:
+                    got[1].invert()
+                    got[1].append('0b1')
+                    got[1].reverse()
+                except Exception as e:  # noqa: BLE001
+                    problem = f"returned bitstring unusable: {type(e).__name__}"
+                if problem is None and (ns['s'].bin, getattr(ns['s'], 'pos', None)) != before:
+                    problem = "changing the returned bitstring in place changed the receiver"
+                extra = "\n    (_r.invert(), _r.append('0b1'), _r.reverse()) if isinstance(_r, bitstring.BitArray) and _r is not s else None"
             problem = problem or witness(bs, ns)
-            judge(acc, op, src, pre, obs_, problem, group=name)
+            judge(acc, op, (f"_r = {src}" + extra) if extra else src, pre, obs_, problem, group=name)
             # depth 2 (and 3): follow with the core battery on the same object
             if (stname == 'nine' if q else stname != 'empty') and problem is None and (not q or all(a == d for a, d in zip(args[1:], [pool(name, p[0])[0] for p in params][1:]))):
                 battery = CORE_BATTERY + (CORE_STREAM if 'Stream' in cls else []) + (CORE_MUT if cls in ('BitArray', 'BitStream') else [])
